@@ -352,6 +352,11 @@ func main() {
 		fmt.Fprintln(os.Stderr, "cannot load pkg/integrity:", err)
 		os.Exit(1)
 	}
+	cli, err := load(fset, imp, filepath.Join(*repo, "pkg", "siftool"), "github.com/sylabs/sif/v2/pkg/siftool")
+	if err != nil || cli.pkg == nil {
+		fmt.Fprintln(os.Stderr, "cannot load pkg/siftool:", err)
+		os.Exit(1)
+	}
 	_ = os.Chdir(wd)
 
 	var b strings.Builder
@@ -390,6 +395,8 @@ func main() {
 	}
 	w("\n")
 	emitEffects(&b, []*pkgInfo{sif, integ})
+	w("\n")
+	emitCLI(&b, cli, sif)
 	w("\nend Sif.Gen\n")
 	if *outp == "" {
 		fmt.Print(b.String())
